@@ -17,7 +17,6 @@ package main
 
 import (
 	"fmt"
-	"math/rand/v2"
 	"runtime"
 	"sync"
 	"sync/atomic"
@@ -28,72 +27,13 @@ import (
 	"verif/harness/vk"
 )
 
-var forcedStarts = []uint16{0, 1, 8191, 8192, 8193, 32767, 32768, 57343, 57344, 65535, 65533, 65280}
-
-type step struct {
-	Idx  int  `json:"i"`
-	Drop bool `json:"d,omitempty"` // the harness asked for a drop
-}
-
-type pureCase struct {
-	Start uint16 `json:"start"`
-	N     int    `json:"n"`
-	Steps []step `json:"steps"`
-}
-
-// genPure generates an arrival history with drop requests.
-func genPure(r *rand.Rand, long bool) pureCase {
-	c := pureCase{}
-	if r.IntN(2) == 0 {
-		c.Start = forcedStarts[r.IntN(len(forcedStarts))]
-	} else {
-		c.Start = uint16(r.UintN(65536))
-	}
-	n := 50 + r.IntN(600)
-	if long {
-		n = 66000 + r.IntN(8000)
-	}
-	c.N = n
-	dropMode := r.IntN(5)
-	if long && r.IntN(2) == 0 {
-		dropMode = 5 // a few drops at the start, then a stable stretch longer than 2^15 / 2^16 packets
-	}
-	dropP := []float64{0.05, 0.3, 0.5, 0.02, 0.15, 0}[dropMode]
-	lossP := []float64{0, 0.02, 0.1}[r.IntN(3)]
-	dupP := []float64{0, 0.03, 0.15}[r.IntN(3)]
-	reP := []float64{0, 0.05, 0.3}[r.IntN(3)]
-	maxDelay := []int{2, 8, 40, 300}[r.IntN(4)]
-	order := vdown.Schedule(n, vdown.DeliveryCfg{LossProb: lossP, DupProb: dupP, ReorderProb: reP, MaxDelay: maxDelay}, r)
-	burst := 0
-	for _, idx := range order {
-		d := false
-		switch dropMode {
-		case 2: // alternating layers: every other packet group
-			d = (idx/(1+int(c.Start)%3))%2 == 1
-		case 5:
-			d = idx < 4000 && idx%50 == 7
-		case 3: // long bursts, many delta changes to recycle the 128-entry ring
-			if burst > 0 {
-				burst--
-				d = true
-			} else if r.Float64() < 0.05 {
-				burst = 1 + r.IntN(6)
-			}
-		default:
-			d = r.Float64() < dropP
-		}
-		c.Steps = append(c.Steps, step{idx, d})
-	}
-	return c
-}
-
 type pureResult struct {
-	drops, lateFwd, dupFwd, lateWithheldRefused, reverseOK, wraps int
-	sawGap                                                        bool
+	drops, lateFwd, dupFwd, lateWithheldRefused, wraps int
+	sawGap                                             bool
 }
 
 // runPure executes one history against a fresh Map and the oracle.
-func runPure(run *vk.Run, c pureCase, replay any, exhaustive bool) (res pureResult, failed bool) {
+func runPure(run *vk.Run, c vdown.PureCase, replay any, exhaustive bool) (res pureResult, failed bool) {
 	var m packetmap.Map
 	fw := vdown.NewFenwick(c.N + 1)
 	withheld := make(map[int]bool)
@@ -166,17 +106,6 @@ func runPure(run *vk.Run, c pureCase, replay any, exhaustive bool) (res pureResu
 			res.lateFwd++
 		}
 		outOf[i] = out
-		// Reverse of a number just handed out must name this source packet (or nothing)
-		if exhaustive || k%7 == 0 {
-			rok, rs, _ := m.Reverse(out)
-			if rok {
-				if rs != s {
-					fail("pure:reverse-wrong-source", fmt.Sprintf("Reverse(%d) = %d, but %d was handed out for source %d", out, rs, out, s), k)
-					return
-				}
-				res.reverseOK++
-			}
-		}
 	}
 	return
 }
@@ -220,32 +149,32 @@ func runExhaustive(run *vk.Run, start uint16, depth int) int64 {
 	return count.Load()
 }
 
-func wordToCase(start uint16, word []int) pureCase {
-	c := pureCase{Start: start}
+func wordToCase(start uint16, word []int) vdown.PureCase {
+	c := vdown.PureCase{Start: start}
 	hi := 0
-	c.Steps = append(c.Steps, step{0, false})
+	c.Steps = append(c.Steps, vdown.Step{0, false})
 	for _, l := range word {
 		switch alphabet[l] {
 		case "next":
 			hi++
-			c.Steps = append(c.Steps, step{hi, false})
+			c.Steps = append(c.Steps, vdown.Step{hi, false})
 		case "gap1":
 			hi += 2
-			c.Steps = append(c.Steps, step{hi, false})
+			c.Steps = append(c.Steps, vdown.Step{hi, false})
 		case "gap3":
 			hi += 4
-			c.Steps = append(c.Steps, step{hi, false})
+			c.Steps = append(c.Steps, vdown.Step{hi, false})
 		case "dup":
-			c.Steps = append(c.Steps, step{hi, false})
+			c.Steps = append(c.Steps, vdown.Step{hi, false})
 		case "late1":
-			c.Steps = append(c.Steps, step{max(0, hi-1), false})
+			c.Steps = append(c.Steps, vdown.Step{max(0, hi-1), false})
 		case "late3":
-			c.Steps = append(c.Steps, step{max(0, hi-3), false})
+			c.Steps = append(c.Steps, vdown.Step{max(0, hi-3), false})
 		case "dropnext":
 			hi++
-			c.Steps = append(c.Steps, step{hi, true})
+			c.Steps = append(c.Steps, vdown.Step{hi, true})
 		case "droplate":
-			c.Steps = append(c.Steps, step{max(0, hi-1), true})
+			c.Steps = append(c.Steps, vdown.Step{max(0, hi-1), true})
 		}
 	}
 	c.N = hi + 2
@@ -273,7 +202,7 @@ func runDirect(run *vk.Run, idx uint64) {
 		cfg.ZProb = 0.2
 	}
 	if r.IntN(2) == 0 {
-		cfg.StartSeq = forcedStarts[r.IntN(len(forcedStarts))]
+		cfg.StartSeq = vdown.ForcedStarts[r.IntN(len(vdown.ForcedStarts))]
 	} else {
 		cfg.StartSeq = uint16(r.UintN(65536))
 	}
@@ -386,7 +315,7 @@ func main() {
 		} else if cs, ok := m["case"].(map[string]any); ok {
 			if pi, ok := cs["pure_index"].(float64); ok {
 				long, _ := cs["long"].(bool)
-				c := genPure(run.Rand(1, uint64(pi)), long)
+				c := vdown.GenPure(run.Rand(1, uint64(pi)), long)
 				runPure(run, c, cs, false)
 			} else if wd, ok := cs["exhaustive_word"].([]any); ok {
 				var word []int
@@ -416,7 +345,7 @@ func main() {
 					return
 				}
 				long := i >= uint64(nPure)
-				c := genPure(run.Rand(1, i), long)
+				c := vdown.GenPure(run.Rand(1, i), long)
 				res, failed := runPure(run, c, map[string]any{"pure_index": i, "long": long}, false)
 				run.Eval(int64(len(c.Steps)))
 				if failed {
@@ -427,7 +356,6 @@ func main() {
 				run.Count("pure_late_forwarded", int64(res.lateFwd))
 				run.Count("pure_duplicates_same_number", int64(res.dupFwd))
 				run.Count("pure_withheld_copies_refused", int64(res.lateWithheldRefused))
-				run.Count("pure_reverse_confirmed", int64(res.reverseOK))
 				if res.wraps > 0 {
 					run.Count("pure_histories_with_wrap", 1)
 				}
@@ -474,7 +402,6 @@ func main() {
 	run.FloorCounter("pure_late_forwarded", 1000)
 	run.FloorCounter("pure_duplicates_same_number", 500)
 	run.FloorCounter("pure_withheld_copies_refused", 100)
-	run.FloorCounter("pure_reverse_confirmed", 1000)
 	run.FloorCounter("pure_histories_with_wrap", 10)
 	run.FloorCounter("direct_withheld", 500)
 	run.FloorCounter("direct_late_forwarded", 100)
